@@ -1,35 +1,102 @@
-"""C20 scale probe: both cover algorithms on long chain graphs (a tree with a perfect matching).
+"""C20 scale probe (implementation only): structures whose alternating / augmenting paths are longer than
+CPython's default recursion limit.
 
-stdin : {"sizes": [n, ...]}
-stdout: RESULT {"res": [{"n": n, "algo": algo, "ok": bool, "err": ..., "valid": bool, "size": int}, ...]}
+stdin : {"chain": [n, ...], "path": [n, ...], "thin_operator": [n, ...]}
+stdout: RESULT {"res": [{"what": ..., "n": n, "algo": algo, "ok": bool, "err": ..., "valid": bool, "size": int, "expected": int}, ...]}
 
-Graph: U = V = {0..n-1}; u_i ~ v_i, v_{i+1} for i < n-1 and u_{n-1} ~ v_0.  The edges
-(u_i, v_{i+1}), (u_{n-1}, v_0) form a perfect matching, so every minimum cover has exactly n vertices.
-The greedy first choices (u_i -> v_i) force the last search to re-route the whole chain: the
-augmenting path has length n, which is the recursion depth of `augment`.
+chain(n)   U = V = {0..n-1}; u_i ~ v_i, v_{i+1} (i < n-1), u_{n-1} ~ v_0.  Certificate: the perfect matching
+           {(u_i, v_{i+1})} + (u_{n-1}, v_0) -> every cover has >= n vertices.  The greedy first choices of the
+           augmenting-path matcher force the last search to re-route the whole chain (recursion depth n).
+           Run with both algorithms (the Hungarian failure is the known finding hungarian-recursion-limit).
+path(n)    u0 - v0 - u1 - v1 - ... - v_{n-1} - u_n  (|U| = n+1, |V| = n).  Certificate: matching {(u_i, v_i)} of
+           size n -> every cover has >= n vertices; a returned VALID cover of size n is therefore minimum.
+           One U vertex is always unmatched, so new_konig has to follow an alternating path through the whole
+           graph: this is the case new_konig was written for ("huge number of recursive calls").  Hopcroft-Karp only.
+thin_operator(n)  the 2-site operator  sum_i A_i (B_i + B_{i-1}) + A_{n+1} (B_n + B_{n+1} + B_{n+2})  built with
+           construct_symbolic_mpo(..., algo="Hopcroft-Karp"): n+2 left / n+3 right distinct terms, incidence =
+           path(n) + a star; minimum cover n + 1 (matching of size n + 1: path matching + one star edge; cover:
+           v_0..v_{n-1} + the star centre).  The bond dimension must be n + 1.
 """
 import json
 import sys
 
+import numpy as np
+
 from renormalizer.lib import bipartite_vertex_cover
+from renormalizer.model import Op
+from renormalizer.mps.symbolic_mpo import construct_symbolic_mpo
+
+
+def cover_result(g, algo, expected):
+    r = {"algo": algo, "expected": expected}
+    try:
+        ub, vb = bipartite_vertex_cover(g, algo=algo)
+        cu = {i for i, b in enumerate(ub) if b}
+        cv = {i for i, b in enumerate(vb) if b}
+        r.update(ok=True, size=len(cu) + len(cv),
+                 valid=all(u in cu or v in cv for u, adj in enumerate(g) for v in adj))
+    except BaseException as e:      # noqa: BLE001  (RecursionError is the observation of interest)
+        r.update(ok=False, err=type(e).__name__)
+    return r
+
+
+def chain(n):
+    return [[i, i + 1] for i in range(n - 1)] + [[0]]
+
+
+def path(n):
+    g = [[] for _ in range(n + 1)]
+    for i in range(n):
+        g[i].append(i)
+        g[i + 1].append(i)
+    return g
+
+
+def is_matching(g, pairs):
+    return all(v in g[u] for u, v in pairs) and len({u for u, _ in pairs}) == len(pairs) == len({v for _, v in pairs})
+
+
+def thin_operator(n, algo):
+    primary_ops = [Op.identity("s0"), Op.identity("s1")]
+    left, right = [], []
+    for i in range(n + 2):
+        left.append(len(primary_ops))
+        primary_ops.append(Op("A%d" % i, "s0"))
+    for j in range(n + 3):
+        right.append(len(primary_ops))
+        primary_ops.append(Op("B%d" % j, "s1"))
+    table = []
+    for i in range(n):
+        table.append([left[i], right[i]])
+        table.append([left[i + 1], right[i]])
+    for j in (n, n + 1, n + 2):
+        table.append([left[n + 1], right[j]])
+    table = np.array(table, dtype=np.uint16)
+    factor = np.linspace(1.0, 2.0, len(table))
+    r = {"algo": algo, "expected": n + 1, "terms": len(table)}
+    try:
+        mpo = construct_symbolic_mpo(table, primary_ops, factor, algo=algo)[0]
+        bond = int(mpo[0].shape[1])
+        r.update(ok=True, size=bond, valid=(int(mpo[1].shape[0]) == bond and bond <= min(n + 2, n + 3)))
+    except BaseException as e:      # noqa: BLE001
+        r.update(ok=False, err=type(e).__name__)
+    return r
 
 
 def main():
     payload = json.load(sys.stdin)
     res = []
-    for n in payload["sizes"]:
-        g = [[i, i + 1] for i in range(n - 1)] + [[0]]
+    for n in payload.get("chain", []):
+        g = chain(n)
+        assert is_matching(g, [(i, i + 1) for i in range(n - 1)] + [(n - 1, 0)])       # certificate: |M| = n
         for algo in ("Hopcroft-Karp", "Hungarian"):
-            r = {"n": n, "algo": algo}
-            try:
-                ub, vb = bipartite_vertex_cover(g, algo=algo)
-                cu = {i for i, b in enumerate(ub) if b}
-                cv = {i for i, b in enumerate(vb) if b}
-                r.update(ok=True, size=len(cu) + len(cv),
-                         valid=all(u in cu or v in cv for u, adj in enumerate(g) for v in adj))
-            except BaseException as e:      # noqa: BLE001  (RecursionError is the observation of interest)
-                r.update(ok=False, err=type(e).__name__)
-            res.append(r)
+            res.append(dict(cover_result(g, algo, n), what="chain", n=n))
+    for n in payload.get("path", []):
+        g = path(n)
+        assert is_matching(g, [(i, i) for i in range(n)])                               # certificate: |M| = n
+        res.append(dict(cover_result(g, "Hopcroft-Karp", n), what="path", n=n))
+    for n in payload.get("thin_operator", []):
+        res.append(dict(thin_operator(n, "Hopcroft-Karp"), what="thin-operator", n=n))
     print("RESULT " + json.dumps({"res": res}))
 
 
